@@ -157,6 +157,24 @@ func derivesFrom(v ssa.Value, roots ...ssa.Value) bool {
 // keyExpr: v is the range key itself, a conversion of it, or a concatenation of it with loop-invariant strings.
 func injectiveInKey(v ssa.Value, l *mapLoop) bool {
 	switch x := v.(type) {
+	case *ssa.UnOp:
+		// the range key spilled into a variable of its own (captured by a closure in the body): a load of
+		// a slot whose only store is the key
+		if x.Op == token.MUL {
+			if al, ok := x.X.(*ssa.Alloc); ok && al.Referrers() != nil {
+				n, okStore := 0, true
+				for _, rf := range *al.Referrers() {
+					if st, isSt := rf.(*ssa.Store); isSt && st.Addr == ssa.Value(al) {
+						n++
+						if st.Val != l.Key {
+							okStore = false
+						}
+					}
+				}
+				return n == 1 && okStore
+			}
+		}
+		return false
 	case *ssa.ChangeType:
 		return injectiveInKey(x.X, l)
 	case *ssa.Convert:
